@@ -71,6 +71,7 @@ def _mk(rng, **force):
         'tmpl_dtype': rng.choice(['float32', 'float64']), 'nan': rng.random() < 0.35, 'nan_template': rng.random() < 0.15,
         'attrs': rng.random() < 0.4, 'nonmono': rng.random() < 0.08, 'sparse': rng.random() < 0.3,
         'route': rng.choice(ROUTES), 'features': rng.random() < 0.25, 'tfeatures': rng.random() < 0.2,
+        'warm': rng.random() < 0.3,
         'reorder': rng.random() < 0.25, 'nan_partial': rng.random() < 0.15, 'one_channel': rng.random() < 0.06,
     }
     o.update(force)
@@ -318,6 +319,39 @@ def _abstract_path(p, d):
     return D4.DIR + p[len(d):] if (p == d or p.startswith(d + os.sep)) else p
 
 
+def _warm_up(ds, d, kw, route):
+    """The directory has already been loaded once, in this process, at a time when its optional files (the ones
+    that have a documented default) were not there yet; they were added afterwards.  A load reads the directory as it
+    is NOW: what an earlier load of the same directory saw must not matter (seeded change C04-m9 cached directory
+    listings per process).  Everything the first load created is removed again, so the load that is observed starts
+    from exactly the generated directory."""
+    from phylib.io.model import TemplateModel, load_model
+    OPT = ('amplitudes.npy', 'spikes.amps', 'channel_shanks.npy', 'channels.shanks', 'channel_probe.npy', 'channels.probes',
+           'spike_clusters.npy', 'spikes.clusters', 'similar_templates.npy', 'whitening_mat.npy', 'whitening_mat_inv.npy',
+           'template_ind.npy', 'templates.waveformsChannels')
+    names = [n for n in os.listdir(d) if n.startswith(OPT)]
+    if not names:
+        return
+    side = d + '.side'
+    os.mkdir(side)
+    try:
+        for n in names:
+            os.rename(os.path.join(d, n), os.path.join(side, n))
+        kept = set(os.listdir(d))
+        try:
+            m0 = TemplateModel(**kw) if route == 'kwargs' else load_model(os.path.join(d, 'params.py'))
+            m0.close()
+            del m0
+        except Exception:  # noqa
+            pass
+        for n in set(os.listdir(d)) - kept:
+            os.remove(os.path.join(d, n))
+    finally:
+        for n in names:
+            os.rename(os.path.join(side, n), os.path.join(d, n))
+        os.rmdir(side)
+
+
 def _traces_obs(np, m):
     """model.traces[:] — read after the model's reader object has already answered a channel-restricted read, a
     derived column view and a plain read (earlier reads must not change later answers); if the two full reads
@@ -348,6 +382,8 @@ def run_case(case):
         route = ds.get('opts', {}).get('route', 'kwargs')
         if route != 'kwargs':
             _write_params(ds, route, d)
+        if ds.get('opts', {}).get('warm'):
+            _warm_up(ds, d, kw, route)
         before = D.listing(d)
         try:
             if route == 'kwargs':
